@@ -6,6 +6,7 @@ import (
 	"math/rand"
 	"runtime"
 	"sync"
+	"sync/atomic"
 
 	"gopkg.in/typ.v4/slices"
 	"verif/lib/enum"
@@ -29,7 +30,13 @@ func checkAll(keys []int) {
 		}
 	}
 	e.Input(nontriv)
-	count := [3]int{}
+	maxKey := 2
+	for _, k := range keys {
+		if k > maxKey {
+			maxKey = k
+		}
+	}
+	count := make([]int, maxKey+1)
 	for _, k := range keys {
 		count[k]++
 	}
@@ -45,10 +52,10 @@ func checkAll(keys []int) {
 			slices.Sort(s)
 		}
 		e.Call()
-		c := [3]int{}
+		c := make([]int, maxKey+1)
 		ok := len(s) == n
 		for i, k := range s {
-			if k < 0 || k > 2 {
+			if k < 0 || k > maxKey {
 				ok = false
 				break
 			}
@@ -57,7 +64,7 @@ func checkAll(keys []int) {
 				ok = false
 			}
 		}
-		if !ok || c != count {
+		if !ok || fmt.Sprint(c) != fmt.Sprint(count) {
 			e.Fail(name+"|result", rp, "%s(%v) = %v", name, keys, s)
 		}
 	}
@@ -166,6 +173,62 @@ func main() {
 	}
 	close(jobs)
 	wg.Wait()
+	// Large-size families: structured key patterns at every length 21..140 and around powers of
+	// two up to 1025 (pdqsort switches strategy at 12 and 50 elements, uses ninther pivots, block
+	// partitioning and a heapsort fallback; a hand-rolled path behind a length threshold shows here)
+	lens := []int{}
+	for n := binLen + 1; n <= 140; n++ {
+		lens = append(lens, n)
+	}
+	lens = append(lens, 255, 256, 257, 511, 512, 513, 1000, 1024, 1025)
+	patterns := []func(i, n int) int{
+		func(i, n int) int { return i },                     // ascending, all distinct
+		func(i, n int) int { return n - i },                 // descending
+		func(i, n int) int { return 0 },                     // all equal
+		func(i, n int) int { return i % 2 },                 // alternating
+		func(i, n int) int { return (n - i) * 2 / (n + 1) }, // ones then zeros
+		func(i, n int) int { return i % 3 },                 // saw-tooth
+		func(i, n int) int { return (i * 7919) % 13 },       // scattered, many ties
+		func(i, n int) int { return (i * i) % 7 },           // quadratic residues
+		func(i, n int) int {
+			d := i - n/2
+			if d < 0 {
+				d = -d
+			}
+			return d / 3
+		}, // organ pipe with ties
+		func(i, n int) int { return (i/5)%2*3 + i%2 },                            // blocks
+		func(i, n int) int { return (i*2654435761 + 12345) % 1000003 % (n + 1) }, // pseudo-scrambled, few ties
+	}
+	famJobs := make(chan func(), 64)
+	var fwg sync.WaitGroup
+	for w := 0; w < workers; w++ {
+		fwg.Add(1)
+		go func() {
+			defer fwg.Done()
+			for j := range famJobs {
+				j()
+			}
+		}()
+	}
+	var famCases int64
+	for _, n := range lens {
+		for pi, pat := range patterns {
+			n, pat := n, pat
+			_ = pi
+			famJobs <- func() {
+				keys := make([]int, n)
+				for i := range keys {
+					keys[i] = pat(i, n)
+				}
+				checkAll(keys)
+				atomic.AddInt64(&famCases, 1)
+			}
+		}
+	}
+	close(famJobs)
+	fwg.Wait()
+	r.Set("large_size_family_inputs", famCases)
 	r.Sample("keys [2 0 1 0] -> six sort functions, tagged with original index")
 	// BinarySearch: every ascending slice over {0,2,4} of length <= L x every target -1..5
 	L := ev.Pick(r, 8, 12)
@@ -200,6 +263,32 @@ func main() {
 					if got := slices.BinarySearchFunc(s, func(x int) bool { return x < t }); got != want {
 						e.Fail("BinarySearchFunc|result", rp, "BinarySearchFunc(%v, x<%d) = %d, want %d", s, t, got, want)
 					}
+				}
+			}
+		}
+	}
+	for _, n := range []int{13, 31, 32, 33, 64, 100, 255, 256, 257, 1000} {
+		for blk := 1; blk <= 5; blk++ {
+			s := make([]int, n)
+			for i := range s {
+				s[i] = (i / blk) * 2
+			}
+			e.Input(true)
+			for t := -1; t <= s[n-1]+1; t++ {
+				want := n
+				for i, v := range s {
+					if v >= t {
+						want = i
+						break
+					}
+				}
+				e.Call()
+				if got := slices.BinarySearch(s, t); got != want {
+					e.Fail("BinarySearch|result", map[string]any{"len": n, "block": blk, "target": t}, "BinarySearch(len %d, runs of %d equal values, target %d) = %d, want %d", n, blk, t, got, want)
+				}
+				e.Call()
+				if got := slices.BinarySearchFunc(s, func(x int) bool { return x < t }); got != want {
+					e.Fail("BinarySearchFunc|result", map[string]any{"len": n, "block": blk, "target": t}, "BinarySearchFunc(len %d, runs of %d, x<%d) = %d, want %d", n, blk, t, got, want)
 				}
 			}
 		}
